@@ -18,10 +18,12 @@ OTHER_FINS = ["-", "-", "-", "other.io/f"]
 
 
 def tok4(a, l):
+    assert a & ((1 << (32 - l)) - 1) == 0, "generator bug: unaligned IPv4 CIDR %x/%d" % (a, l)
     return "v4:%s/%d" % (hexa("v4", a), l)
 
 
 def tok6(a, l):
+    assert a & ((1 << (128 - l)) - 1) == 0, "generator bug: unaligned IPv6 CIDR %x/%d" % (a, l)
     return "v6:%s/%d" % (hexa("v6", a), l)
 
 
@@ -544,7 +546,65 @@ def sc_service_release(r):
     return ops
 
 
-SCENARIOS = [sc_replace_cc, sc_stale_fetch, sc_dual_exhaust, sc_faults, sc_cc_retry, sc_restart, sc_cursor, sc_labels, sc_service, sc_preset, sc_terminating_overlap, sc_dual_blocked, sc_bootstrap_unfinalized, sc_replaced_node, sc_sibling_cc, sc_service_release]
+def sc_applied_then_failed(r):
+    """a node write that timed out AFTER being applied is followed by cleanly failing retries; the other nodes are known to the
+    controller already and are processed next, without any notification in between, on a pool so small that the search
+    wraps around to the first node's block: the controller must keep what it wrote itself (C01: "or has itself written")"""
+    sel, good, bad = _rng_sel_and_labels(r)
+    a = r.choice([0x0a000000, 0xc0a80000, 0x0a000100])
+    hb = r.choice([4, 4, 3])
+    nblocks = r.choice([2, 2, 3, 4])
+    l = 32 - hb - {2: 1, 3: 2, 4: 2}[nblocks]
+    ops = ["cc+ c1 %s - %d %s - 1 1" % (tok4(a, l), hb, sel), "construct - - -", "start", "pc ok"]
+    k = nblocks + 1
+    for i in range(1, k + 1):
+        ops += ["n+ n%d %s -" % (i, good)]
+    ops += ["dn"] * k
+    ops += ["pn " + r.choice(["tmo,fail,fail", "fail,tmo,fail", "tmo,tmn,fail", "tmo,fail,fail,ok", "tmo,fail,tmn", "fail,fail,tmo"])]
+    ops += ["pn ok"] * (k - 1)
+    ops += r.choice([[], ["tick", "pn ok", "pn ok"], ["dn", "dn", "tick", "pn ok"]])
+    return ops
+
+
+def sc_foreign_preset(r):
+    """a node that no ClusterCIDR selects holds a pod CIDR inside the range of a ClusterCIDR with few blocks; the other nodes are
+    served around it; it is deleted; the next node must get the freed block (nothing may stay withheld on its behalf)"""
+    sels = [x for x in [_rng_sel_and_labels(r) for _ in range(6)] if x[0] != "-"]
+    sel, good, bad = sels[0] if sels else ("zone:In:a", "zone=a", "zone=b")
+    a = r.choice([0x0a000000, 0xc0a80000, 0x0a010000])      # aligned to every prefix length used below
+    hb = r.choice([4, 4, 8])
+    nblocks = r.choice([2, 2, 4])
+    l = 32 - hb - {2: 1, 4: 2}[nblocks]
+    k = r.randrange(nblocks)
+    legacy = "n+ n1 %s %s" % (bad, tok4(a + k * (1 << hb), 32 - hb))
+    cc = "cc+ c1 %s - %d %s - 1 1" % (tok4(a, l), hb, sel)
+    if r.random() < 0.5:
+        ops = [legacy, "construct - - -", "start", "pn ok", cc, "dc", "pc ok", "dc", "pc ok"]
+    else:
+        ops = [legacy, cc, "construct - - -", "start", "pc ok", "pn ok"]
+    for i in range(2, nblocks + 1):
+        ops += ["n+ n%d %s -" % (i, good), "dn", "pn ok", "dn"]
+    ops += ["n+ n9 %s -" % good, "dn", "pn ok"]          # refused: everything is in use
+    ops += ["n- n1", "dn", "tick", "pn ok", "pn ok", "dn", "tick", "pn ok"]
+    return ops
+
+
+def sc_stale_relabel(r):
+    """a work item holds a copy of the node fetched before the node was served; meanwhile the node is relabelled and served from
+    a ClusterCIDR with a different number of families; then the stale item runs: it must not write to a node that has pod
+    CIDRs according to the cache, and what it reserved must be given back"""
+    a, b = 0x0a000000, 0x0a000100
+    single = "cc+ c1 %s - 4 zone:In:a - 1 1" % tok4(a, 26)
+    dual = "cc+ c2 %s %s 4 zone:In:b - 1 2" % (tok4(b, 26), tok6((0xfd000000 << 96) + 0x100, 120))
+    ops = r.choice([[single, dual], [dual, single]]) + ["construct - - -", "start", "pc ok", "pc ok"]
+    first, second = r.choice([("zone=a", "zone=b"), ("zone=b", "zone=a")])
+    ops += ["n+ n1 %s -" % first, "dn", "fn 1 n1", "nl n1 %s" % second, "dn", "pn ok", "pn ok", "dn",
+            "runn 1 " + r.choice(["ok", "ok", "fail,fail,fail", "tmo,fail,fail"])]
+    ops += ["n+ n2 %s -" % first, "dn", "pn ok", "tick", "pn ok"]
+    return ops
+
+
+SCENARIOS = [sc_replace_cc, sc_stale_fetch, sc_dual_exhaust, sc_faults, sc_cc_retry, sc_restart, sc_cursor, sc_labels, sc_service, sc_preset, sc_terminating_overlap, sc_dual_blocked, sc_bootstrap_unfinalized, sc_replaced_node, sc_sibling_cc, sc_service_release, sc_applied_then_failed, sc_foreign_preset, sc_stale_relabel]
 
 
 def noise_op(r):
